@@ -463,7 +463,9 @@ pub fn run(which: &str, tier: Tier, rep: &mut Report) -> (String, String) {
     let n = tier.pick(3, 4, 1);
     let mut inputs = strings_over(&atoms, n);
     // a few longer inputs with richer structure (whitespace classes, overlapping needles, numbers at type limits)
-    for s in ["  a, a ,ñ  ", "\t\n\x0C a\r ", "aaa,aa,a", ",,a,,", "-128,255,256,-129", "truefalse,true", "a,a,a,a,", "ñañ,ñ", "340282366920938463463374607431768211455,-170141183460469231731687303715884105728x"] {
+    for s in ["  a, a ,ñ  ", "\t\n\x0C a\r ", "aaa,aa,a", ",,a,,", "-128,255,256,-129", "truefalse,true", "a,a,a,a,", "ñañ,ñ", "340282366920938463463374607431768211455,-170141183460469231731687303715884105728x",
+        // chars at the UTF-8 width / lead-byte boundaries around the cut points (skip / skip_back round to char boundaries)
+        "a\u{7FF}\u{800},\u{FFFF}", "\u{FEFF}a,\u{10000}\u{10FFFF} ", " \u{BF}\u{FF}ñ\u{85} "] {
         inputs.push(s.to_string());
     }
     if tier == Tier::Miri {
@@ -524,7 +526,7 @@ pub fn run(which: &str, tier: Tier, rep: &mut Report) -> (String, String) {
     };
     (
         rule.into(),
-        format!("inputs: all strings of <= {n} atoms over {atoms:?} ({}) + 9 structured longer inputs; constructors new, with_start_offset(_,0), with_start_offset(_,5); {} operations (patterns a , ñ \"a,\" \",,\" \" \" \"\" 'a' 'ñ' ','; skip/skip_back 0,1,2,3,5,1000,usize::MAX; parse_u8/i8/u64(parse_with!)/i128/bool); protocol family over {{a,b}}<= {} with delimiters aab, aba, ab, aa", inputs.len(), ops().len(), tier.pick(6, 8, 0)),
+        format!("inputs: all strings of <= {n} atoms over {atoms:?} ({}) + 12 structured longer inputs; constructors new, with_start_offset(_,0), with_start_offset(_,5); {} operations (patterns a , ñ \"a,\" \",,\" \" \" \"\" 'a' 'ñ' ','; skip/skip_back 0,1,2,3,5,1000,usize::MAX; parse_u8/i8/u64(parse_with!)/i128/bool); protocol family over {{a,b}}<= {} with delimiters aab, aba, ab, aa", inputs.len(), ops().len(), tier.pick(6, 8, 0)),
     )
 }
 
